@@ -1649,6 +1649,21 @@ class StateEngine(object):
                             catch_matched = True
 
                             """
+                            If the state whose error has been caught is a failed
+                            Map or Parallel state tidy up self.branch_metadata
+                            for the current execution_arn now that the event
+                            for the Catcher's Next state has been published, as
+                            is done when a Map or Parallel state is retried.
+                            This cancels outstanding Tasks of the terminated
+                            Branches/Iterations and acknowledges their held
+                            events, which would otherwise never be acknowledged
+                            if no further events arrive for those branches.
+                            """
+                            if ((state_type == "Map" or state_type == "Parallel")
+                                and execution_arn in self.branch_metadata):
+                                self.check_pending_results(execution_arn)
+
+                            """
                             If we've caught an error and the current event that
                             caused the error is an event in a Map/Paralell
                             Branch or Iterator we mark the Branch/Iterator
